@@ -31,7 +31,7 @@ BUDGET = {'quick': 100, 'thorough': 1500}
 TIMEOUT = 120
 SHRINK_LISTS = [['adds']]
 EXPECTED_PROBES = ['duplicate_idx', 'auto_idx', 'mixed_types', 'later_added_target', 'dangling', 'backref_checked', 'finder_created',
-                   'finder_shared', 'lookups', 'group_lookup_across_models']
+                   'finder_shared', 'lookups', 'group_lookup_across_models', 'after_reset']
 RULE = ('plan = seeded add sequence (device kinds, index styles, order, optional dangling reference) + seeded lookup queries; '
         'non-trivial = at least one duplicate/auto index, later-added target or dangling reference; distinct = (index style multiset, '
         'order class, dangling kind, number of devices)')
@@ -121,8 +121,10 @@ def elaborate(stub):
         # references need the *index* of the target, which is only known once the target is added when it is auto-generated:
         # give every referenced target an explicit index first
         pass
+    rs = stream(seed, 'resets')
     return {'property': PROP, 'seed': seed, 'adds': adds, 'order': order, 'dangling': dang,
-            'queries': [stream(seed, 'q').random() for _ in range(8)]}
+            'queries': [stream(seed, 'q').random() for _ in range(8)],
+            'resets': rs.choice([0, 0, 1, 1, 2]) if not dang else 0}
 
 
 def resolve_order(plan):
@@ -257,6 +259,25 @@ def execute(plan):
     _lookups(ss, reg, by_group, plan, v, probes)
     _backrefs(ss, reg, v, probes)
     _finders(ss, reg, v, probes)
+    # ---- a second set-up of the same object (System.reset, once or twice): the same answers, nothing doubled
+    nreset = int(plan.get('resets', 0))
+    for k in range(nreset):
+        if v:
+            break
+        try:
+            ss.reset()
+        except Exception as e:
+            v.append(V('setup', 'System.reset() number %d raised %s: %s' % (k + 1, type(e).__name__, str(e)[:120]), what='reset_raised',
+                       type=type(e).__name__))
+            break
+        probes['after_reset'] = probes.get('after_reset', 0) + 1
+        nb = len(v)
+        _lookups(ss, reg, by_group, plan, v, probes)
+        _backrefs(ss, reg, v, probes)
+        _finders(ss, reg, v, probes)
+        for x in v[nb:]:
+            x['detail'] = '[after reset %d] ' % (k + 1) + x['detail']
+            x['sig'] = dict(x.get('sig', {}), after_reset=True)
     return _finish(res, plan, probes, styles)
 
 
